@@ -30,6 +30,8 @@ Observation = ``Obs(kind, value, vm_kib, rss_kib)``:
     "sig"     signal name, e.g. "SIGABRT"               (worker killed while inside the call)
     "exit"    exit status                               (worker called exit() inside the call)
     "timeout" "wall" | "cpu"
+    "skipped" reason      only with the per-batch option max_timeouts=N: after N timeouts in one batch the
+                          rest of that batch is not executed (the caller must then report exhaustive:false)
 
     vm_kib / rss_kib: growth of the *peak* virtual size / peak resident set of the worker that is
     attributable to this call (peak after the call minus current size before it; 0 when the peak
@@ -483,6 +485,13 @@ def _run_batch(fn, inputs, shm, cfg, cmd_fds):
     while True:
         todo = [i for i in range(n) if obs[i] is None]
         if not todo:
+            break
+        max_to = cfg.get("max_timeouts")
+        if max_to and stats["timeouts_wall"] + stats["timeouts_cpu"] >= max_to:
+            # circuit breaker: do not spend cpu_s seconds on each of thousands of hanging inputs
+            for i in todo:
+                obs[i] = ("skipped", "after-%d-timeouts" % max_to, None, None)
+            stats["skipped_after_timeouts"] += len(todo)
             break
         shm[0:8] = _IDX.pack(-1)
         shm[8:16] = _IDX.pack(-1)
